@@ -37,6 +37,23 @@ type srvCfg struct {
 	cnTasks    bool // CloseNotify requested from other goroutines
 	deferPct   int  // % of answers built and written later by another goroutine
 	doubleConn bool // two connections may reach the listener before it is served
+	force      *srvForce // enumerated fault placement (sweep)
+	hdr        *hdrForce // enumerated request header (C16 sweep)
+}
+
+// hdrForce pins the header of the single request of a run.
+type hdrForce struct {
+	flags    byte
+	hbh, e2e uint32
+	rc       uint32
+}
+
+// srvForce pins where and what the single fault of a run is.
+type srvForce struct {
+	conn, pos int
+	kind      string // "panic", "rst-mid" or "malformed"
+	malformed int    // index into the malformed kinds
+	acceptErrs int
 }
 
 type plan struct {
@@ -288,9 +305,19 @@ func (w *srvWorld) genConn(i int, dialled, late bool) *peerConn {
 			wantFault = opts[1+t.Draw(len(opts)-1)]
 		}
 	}
+	if cfg.force != nil {
+		wantFault = ""
+		n = 3
+		if !late && cfg.force.conn == i {
+			wantFault = cfg.force.kind
+		}
+	}
 	faultPos := -1
 	if wantFault != "" {
 		faultPos = t.Draw(n + 1)
+		if cfg.force != nil {
+			faultPos = cfg.force.pos
+		}
 		if wantFault == "panic" && faultPos >= n {
 			faultPos = n - 1
 		}
@@ -299,7 +326,7 @@ func (w *srvWorld) genConn(i int, dialled, late bool) *peerConn {
 	}
 	for k := 0; k < n; k++ {
 		if wantFault == "malformed" && k == faultPos {
-			kind, b := genMalformed(t, i, k)
+			kind, b := genMalformedKind(t, i, k, w.forcedMalformed())
 			sm := &sentMsg{bytes: b, start: len(pc.stream), bad: kind}
 			pc.msgs = append(pc.msgs, sm)
 			pc.stream = append(pc.stream, b...)
@@ -375,11 +402,17 @@ func (w *srvWorld) genConn(i int, dialled, late bool) *peerConn {
 		if wantFault == "panic" && k == faultPos {
 			sm.plan.panics = true
 		}
+		if cfg.hdr != nil {
+			m.Flags, m.HbH, m.E2E = cfg.hdr.flags, cfg.hdr.hbh, cfg.hdr.e2e
+			sm.ref = m
+			sm.bytes = m.Bytes()
+			sm.plan.answer, sm.plan.rc = true, cfg.hdr.rc
+		}
 		pc.msgs = append(pc.msgs, sm)
 		pc.stream = append(pc.stream, sm.bytes...)
 	}
 	if wantFault == "malformed" && faultPos >= n {
-		kind, b := genMalformed(t, i, n)
+		kind, b := genMalformedKind(t, i, n, w.forcedMalformed())
 		sm := &sentMsg{bytes: b, start: len(pc.stream), bad: kind}
 		pc.msgs = append(pc.msgs, sm)
 		pc.stream = append(pc.stream, b...)
@@ -398,12 +431,25 @@ func (w *srvWorld) genConn(i int, dialled, late bool) *peerConn {
 }
 
 // genMalformed builds an undecodable item followed by trailing valid-looking data.
-func genMalformed(t *Tape, conn, k int) (string, []byte) {
+func (w *srvWorld) forcedMalformed() int {
+	if w.cfg.force != nil {
+		return w.cfg.force.malformed
+	}
+	return -1
+}
+
+func genMalformed(t *Tape, conn, k int) (string, []byte) { return genMalformedKind(t, conn, k, -1) }
+
+func genMalformedKind(t *Tape, conn, k int, forced int) (string, []byte) {
 	mk := marker(conn, k, 24, 0x55)
 	good := RefMsg{Cmd: 900, Flags: 0x80, HbH: 9, E2E: 9, AVPs: []RefAVP{{Code: avpSimOctets, Data: mk}}}
 	trail := RefMsg{Cmd: 901, Flags: 0x80, HbH: 10, E2E: 10, AVPs: []RefAVP{{Code: avpSimOctets, Data: marker(conn, 1000+k, 40, 1)}}}.Bytes()
 	var b []byte
-	kind := []string{"avp-len-lt-8", "avp-len-gt-container", "vflag-short", "unknown-command", "decl-len-short", "garbage", "avp-len-zero-nested"}[t.Draw(7)]
+	ki := t.Draw(7)
+	if forced >= 0 {
+		ki = forced % 7
+	}
+	kind := []string{"avp-len-lt-8", "avp-len-gt-container", "vflag-short", "unknown-command", "decl-len-short", "garbage", "avp-len-zero-nested"}[ki]
 	switch kind {
 	case "avp-len-lt-8":
 		m := good
@@ -553,7 +599,9 @@ func (w *srvWorld) runInner() {
 	}
 	w.start()
 	acceptErrsLeft := 0
-	if cfg.acceptErrs {
+	if cfg.force != nil {
+		acceptErrsLeft = cfg.force.acceptErrs
+	} else if cfg.acceptErrs {
 		acceptErrsLeft = t.Draw(5)
 		if t.Chance(1, 6) {
 			acceptErrsLeft = 8 + t.Draw(7) // a long run of consecutive temporary errors
